@@ -82,6 +82,20 @@ def corpus(tier, seed):
                 if nops == 3 and not thorough and n % 6 != 1:
                     continue
                 out.append({'text': 'grammar g;\n' + op_grammar(ops, levels), 'class': 'operator', 'ops': ops, 'levels': levels, 'family': 'operator grammar, %d operators' % nops, 'directives': True})
+    # a level that names only an operator no rule uses, in every position among three real levels;
+    for pos in range(4):
+        for asg in (('left', 'left', 'left'), ('left', 'right', 'left'), ('right', 'left', 'right')):
+            real = [(asg[0], ['*']), (asg[1], ['+']), (asg[2], ['<'])]
+            lines = real[:pos] + [('left', ['%'])] + real[pos:]
+            text = 'grammar g;\n' + op_grammar(['*', '+', '<'], lines)
+            out.append({'text': text, 'class': 'operator', 'ops': ['*', '+', '<'], 'levels': real, 'family': 'operator grammar with an unused level', 'directives': True})
+    # terminals and the productions that use them on the same line (a production handle alone gives the
+    # terminal no level, so such a grammar is legitimately rejected and is not in the corpus)
+    for asg in itertools.product(['left', 'right'], repeat=2):
+        lines = ['@%s "*" <start = start "*" start>' % asg[0], '@%s "+" <start = start "+" start>' % asg[1],
+                 'start = start "+" start | start "*" start | "(" start ")" | "n";']
+        out.append({'text': 'grammar g;\n' + '\n'.join(lines) + '\n', 'class': 'operator', 'ops': ['+', '*'], 'levels': [(asg[0], ['*']), (asg[1], ['+'])],
+                    'family': 'operator grammar with terminal and rule handles', 'directives': True})
     # partially declared: one operator left without directive -> unresolved conflict expected
     out.append({'text': 'grammar g;\n' + op_grammar(['+', '*'], [('left', ['*'])]), 'class': 'ambiguous', 'ops': None, 'family': 'operator grammar with a missing directive', 'directives': True})
     rnd = random.Random(seed)
@@ -114,8 +128,8 @@ def lr_machine(table, code, w, n, L, ops_level=None):
     """Returns (accepted, halted, overflow, shape_bad).
     table: dumped {'actions','gotos','prods'}; code: terminal -> int; EOF code = len(code)."""
     eofc = len(code)
-    acts = table['actions']
-    prods = table['prods']
+    acts = table.get('actions') or []
+    prods = table.get('prods') or []
     nts = sorted({p['head'] for p in prods})
     ntc = {A: i for i, A in enumerate(nts)}
     plen = [len(p['body']) for p in prods]
@@ -152,7 +166,7 @@ def lr_machine(table, code, w, n, L, ops_level=None):
             continue
         bystate.setdefault(a['s'], []).append((c, kinds[a['type']], a['arg']))
     gotos = {}
-    for gt in table['gotos']:
+    for gt in table.get('gotos') or []:
         gotos.setdefault(gt['s'], []).append((ntc.get(gt['A'], 255), gt['next']))
 
     def action(s, a):
@@ -440,8 +454,8 @@ def check_one(args):
 
 def lr_replay(table, sent):
     """Concrete shift-reduce run over the dumped table (replay of a witness)."""
-    acts = {(a['s'], a['a']): (a['type'], a['arg']) for a in table['actions']}
-    gotos = {(x['s'], x['A']): x['next'] for x in table['gotos']}
+    acts = {(a['s'], a['a']): (a['type'], a['arg']) for a in table.get('actions') or []}
+    gotos = {(x['s'], x['A']): x['next'] for x in table.get('gotos') or []}
     stack = [0]
     toks = list(sent) + [EOF_NAME]
     i = 0
